@@ -39,7 +39,7 @@ module.exports = {
     'V8 (node 20) is the reference semantics; native build of /repo/src stands in for the wasm build',
     'world limits: callee functions are ordinary functions (the .call lookup of re-dispatch is not observed); with-scope lookups and accessor-backed globals are not observed, so the deliberate re-read of plain identifier operands is invisible',
     'carve-outs of the statement are generator constraints: exceptions compared by constructor name + world tag; X.prototype.m.call/apply has an effect-free path or this-argument; substitutions after a coercion-logged object in a template are effect-free; positions never compared',
-    'known-defect shapes D5/D17/D21 are generated only as canonical witness programs (known_findings.json)'
+    'known-defect shapes (D6/D21/D26/D27) are generated only as canonical witness programs (known_findings.json)'
   ],
   plan (ctx) { return plan(ctx, O) },
   minEvaluations (ctx) { return ctx.tier === 'thorough' ? 5000 : 300 },
